@@ -311,7 +311,15 @@ class Interp:
                     elif held.name.startswith("func:"):
                         fname = held.name[5:]
                 fval = held
-            args = [self.eval(a, st) for a in e.args]  # *x arrives as R('starred', of=x)
+            args = []
+            for a in e.args:
+                av = self.eval(a, st)
+                if isinstance(av, R) and av.kind == "starred":
+                    seq = self.iterate(av.fields["of"], st)  # *x with a known sequence is spliced
+                    if seq is not None and not (isinstance(av.fields["of"], R) and av.fields["of"].kind in ("dict",)):
+                        args.extend(seq)
+                        continue
+                args.append(av)  # *x of an unknown sequence arrives as R('starred', of=x)
             kwargs = {}
             for k in e.keywords:
                 kv = self.eval(k.value, st)
